@@ -130,7 +130,7 @@ def run(chk: core.Check):
     core.use_repo()
     if chk.replay_in:
         rp = json.load(open(chk.replay_in))
-        case = rp.get("case", rp)
+        case = rp.get("case") or ((rp.get("broken_correspondence") or [{}])[0].get("case")) or rp
         chunks = [[case]]
     else:
         table_check(chk)
